@@ -67,11 +67,18 @@ pub fn eval_node<F: FnMut(&GraphColoredVertices, &str)>(
             .cache
             .contains_key(&canonized_formula_with_domains)
         {
-            // decrement number of duplicates left
-            *eval_context
-                .duplicates
-                .get_mut(&canonized_formula_with_domains)
-                .unwrap() -= 1;
+            // decrement number of duplicates left (raw sets of wild-card propositions are kept for
+            // the whole evaluation, as they cannot be recomputed and the number of their evaluations
+            // may exceed the number of marked occurrences when some duplicate is not cached)
+            if !matches!(
+                node.node_type,
+                NodeType::Terminal(Atomic::WildCardProp(_))
+            ) {
+                *eval_context
+                    .duplicates
+                    .get_mut(&canonized_formula_with_domains)
+                    .unwrap() -= 1;
+            }
 
             // get cached result, but it might be using differently named state-variables
             // so we might have to rename them later
@@ -101,7 +108,13 @@ pub fn eval_node<F: FnMut(&GraphColoredVertices, &str)>(
             return result;
         } else {
             // if the cache does not contain result for this subformula, set insert flag
-            save_to_cache = true;
+            // (a result computed inside the scope of a domain-restricted variable that does not occur
+            // in the sub-formula is only valid relative to that domain, while the cache key does not
+            // mention it; such a result must not be reused elsewhere)
+            save_to_cache = !eval_context
+                .free_var_domains
+                .iter()
+                .any(|(var, domain)| domain.is_some() && !renaming.contains_key(var));
         }
     }
 
